@@ -179,6 +179,16 @@ Theorem C13_src_asyncio_connection_lost_is_model : forall k s,
   else s.
 Proof. exact connection_lost_src_eq. Qed.
 
+(* the Twisted ClientSessionService glue, translated from hpfeeds/twisted/service.py on every run (pytrans6.py; TwGenEq.v) *)
+From HP Require Import TwSession TwGenEq.
+Theorem C13_src_twisted_connection_lost_is_model : forall k s,
+  tw_lost k s =
+  let c := getc s k in
+  if (k <? length (conns s))%nat && negb (clost c) then
+    fst (TwProtocol_connection_lost k (modk k (fun c => mkac (cbuf c) (cout c) true true (caborted c) (cnonce c)) s))
+  else s.
+Proof. exact tw_connection_lost_src_eq. Qed.
+
 Print Assumptions C13_asyncio_finished_forever.
 Print Assumptions C13_asyncio_close_not_connected.
 Print Assumptions C13_asyncio_P1.
@@ -198,3 +208,4 @@ Print Assumptions C13_legacy_loss_during_handshake.
 Print Assumptions C13_legacy_refused_attempt.
 Print Assumptions C13_legacy_reconnects.
 Print Assumptions C13_src_asyncio_connection_lost_is_model.
+Print Assumptions C13_src_twisted_connection_lost_is_model.
